@@ -108,6 +108,20 @@ CHECKS = {
             "thread interleavings systematically: sys.monitoring PY_START/LINE events in RSACrypto.get_signer and RSASigner.sign are gates, a "
             "controller enumerates all schedules depth first (entry-level: all; line-level: preemption-bounded), plus free-running threads.",
             PURE, "3/C15"),
+    "C16": ("exploration", "generated document sets under a virtual clock + dictionary model of the declarations as oracle; signed loads through a stubbed HTTP loader with tool-log oracle",
+            "Loads generated federation document sets (1..3 sources, mixed roles, endpoints, indexes, keys by use, entity categories, requested "
+            "attributes, validUntil past/future/absent on entities and enclosing documents, duplicates across sources) into a MetadataStore and "
+            "compares every lookup (service helpers for every role/binding, certs by use, entity_categories, attribute_requirement, "
+            "with_descriptor, membership, UnknownSystemEntity vs UnsupportedBinding) with the model; loads validly signed, tampered, wrongly "
+            "certified, unsigned and wrapped metadata through the loader that has a security context; round-trips generated SP/IdP configurations "
+            "through metadata.entity_descriptor.",
+            TRUST, "3/C16"),
+    "C17": ("exploration", "marker scan of emitted bytes + decryption with every key through the tool + metamorphic plain/encrypted pairs",
+            "For every sign_response x sign_assertion x self-contained x {assertion, PEFIM advice, both} combination the emitted response is "
+            "scanned for unique identity markers, attribute names and the NameID, decrypted with all 12 fixture keys (only the addressee's may "
+            "work) and read back by SPs whose first or second key matches; mutants of the signature, time and addressing families are delivered "
+            "plain and re-encrypted to the same SP (reject(plain) must imply reject(encrypted)); undecryptable content must yield no identity.",
+            TRUST, "3/C17"),
     "C18": ("exploration", "reference-model monitor over operation histories (bounded-exhaustive + random), invariants after every step",
             "Replays every operation history up to a bounded depth over 2 users x 2 SPs (abstract-state pruned), long random histories on "
             "dict- and shelve-backed IdentDB, hostile field contents and the adversarial user-id class against a dictionary model; after each "
